@@ -29,6 +29,7 @@ mod chan;
 mod im;
 mod pins;
 mod round3;
+mod round4;
 mod misc;
 mod netaddr;
 mod seqs;
@@ -275,6 +276,7 @@ fn main() {
     chan::run(&mut cx);
     misc::run(&mut cx);
     round3::run(&mut cx);
+    round4::run(&mut cx);
     pins::run(&mut cx);
     let js = |v: &Vec<(String, String)>| -> String {
         v.iter().map(|(n, d)| format!("{{\"contract\": {}, \"detail\": {}}}", json_str(n), json_str(d))).collect::<Vec<_>>().join(", ")
